@@ -1,10 +1,10 @@
 package props
 
 import (
-	"voicheck/edt"
 	"fmt"
 	"golang.org/x/tools/go/ssa"
 	"sort"
+	"voicheck/edt"
 
 	"voicheck/easm"
 	"voicheck/emod"
